@@ -3,7 +3,7 @@
    `recover` (signature recovery over keccak(prefix, from, to)) is universally quantified;
    `moved`, `wf`, `qcoverb`, `seen_*`, `involved_open`, `idx*_ok` are defined in coq/model/M_MigrateSpec.v. *)
 From Coq Require Import ZArith List Bool.
-From FxV Require Import model.M_Migrate model.M_MigrateSpec model.M_MigrateCorr model.M_MigrateFollow
+From FxV Require Import gen.Gen_C14 model.M_Migrate model.M_MigrateSpec model.M_MigrateCorr model.M_MigrateFollow
   proofs.P_MigrateMature proofs.P_MigrateHist proofs.P_Migrate proofs.P_MigrateFollow.
 Import ListNotations.
 Open Scope Z_scope.
@@ -175,25 +175,39 @@ Theorem C14_locked_nonvacuous :
 Proof. exact locked_example. Qed.
 Print Assumptions C14_locked_nonvacuous.
 
-(* once: whatever happens afterwards — migrations, blocks, governance — no second migration involves either
-   address, as long as the chain is not restarted from an exported genesis *)
+(* facts read from the current source by harness/gen_c14 (coq/gen/Gen_C14.v): the module's InitGenesis hands the
+   exported records to the keeper, and the governance scan gets the year-9999 sentinel as its end key *)
+Theorem C14_source_facts :
+  Gen_C14.genesis_import_keeps_records = true /\ Gen_C14.gov_scan_whole_queue = true.
+Proof. split; reflexivity. Qed.
+Print Assumptions C14_source_facts.
+
+(* once: whatever happens afterwards — migrations, blocks, governance, restarts from an exported genesis — no
+   second migration involves either address *)
 Theorem C14_once : forall (sigT : Type) (recover : Z -> Z -> sigT -> option Z) s from to sg s',
   migrate_tx sigT recover s from to sg = Ok s' ->
-  forall ops f t sg2, Forall (no_import sigT) ops -> f = from \/ f = to \/ t = from \/ t = to ->
+  forall ops f t sg2, f = from \/ f = to \/ t = from \/ t = to ->
   forall s2, migrate_tx sigT recover (run sigT recover s' ops) f t sg2 <> Ok s2.
 Proof. exact once. Qed.
 Print Assumptions C14_once.
 
-(* ... and it is FALSE across export + InitChain (finding C14-3: AppModule.InitGenesis drops the exported records):
-   after the restart the used target is accepted again *)
-Theorem C14_once_refuted_by_export_import :
+Theorem C14_once_across_restart_nonvacuous :
+  let s := run unit sig_any ex_init [OMigrate unit 3 7 (Some tt); OExportImport unit 9] in
+  has_record s 7 = true /\ has_record s 3 = true /\
+  migrate_tx unit sig_any s 2 7 (Some tt) = Err EMigrated /\ migrate_tx unit sig_any s 3 6 (Some tt) = Err EMigrated.
+Proof. exact once_across_import_example. Qed.
+Print Assumptions C14_once_across_restart_nonvacuous.
+
+(* REGRESSION WITNESS, NOT THE MODEL: with the import step as it was before commit 11e9a2c (finding C14-3: the exported
+   records were dropped) a used target and a used source were accepted again after the restart *)
+Theorem C14_prefix_once_refuted_by_export_import :
   let s0 := run unit sig_any ex_init [OMigrate unit 3 7 (Some tt)] in
-  let s := run unit sig_any ex_init [OMigrate unit 3 7 (Some tt); OExportImport unit] in
+  let s := prefix_export_import s0 in
   wf s /\ has_record s0 7 = true /\ has_record s0 3 = true /\ has_record s 7 = false /\ has_record s 3 = false /\
   (exists s', migrate_tx unit sig_any s 2 7 (Some tt) = Ok s' /\ bal_of s' 7 0 = 10000) /\
   (exists s', migrate_tx unit sig_any s 3 6 (Some tt) = Ok s').
-Proof. exact once_lost_on_import. Qed.
-Print Assumptions C14_once_refuted_by_export_import.
+Proof. exact prefix_once_lost_on_import. Qed.
+Print Assumptions C14_prefix_once_refuted_by_export_import.
 
 (* governance: refused while the source or the target is proposer, depositor or voter of a proposal that is
    still open (status deposit or voting period), on every state with the gov store shape govwfb *)
